@@ -116,6 +116,7 @@ pub fn token_faults(src: &str) -> Vec<(String, String)> {
 pub const SCALING_FAMILIES: &[&str] = &[
     "if", "if_nobrace", "block", "paren", "else_if", "call", "ternary", "macro_nest", "binop",
     "casts", "macro_chain", "cond_nest", "include_chain", "include_repeat", "index", "unary",
+    "macro_self_nest", "macro_self_arg",
 ];
 
 pub fn scaling_source(family: &str, d: usize) -> FsSpec {
@@ -149,6 +150,18 @@ pub fn scaling_source(family: &str, d: usize) -> FsSpec {
         "macro_nest" => format!(
             "#define M(a) (a + 1)\nvoid f(int x) {{ x = {}1{}; }}\n",
             rep("M("),
+            rep(")")
+        ),
+        // a self-referential macro under n nested invocations: the name that was left alone once
+        // must stay alone at every outer level, or each level doubles the text
+        "macro_self_nest" => format!(
+            "static const int SELF = 1;\n#define ID(x) x\n#define SELF SELF + SELF\nstatic const int g = {}SELF{};\n",
+            rep("ID("),
+            rep(")")
+        ),
+        "macro_self_arg" => format!(
+            "static const int SELFA = 1;\n#define ID(x) x\n#define SELFA ID(SELFA) + ID(SELFA)\nstatic const int g = {}SELFA{};\n",
+            rep("ID("),
             rep(")")
         ),
         "binop" => format!("void f(int x) {{ x = 1{}; }}\n", rep(" + 1")),
